@@ -65,6 +65,10 @@ CHECKS = {
          "Scenarios biased toward shared cache entries (byte-identical outputs of unrelated rules, cleaned and reverted states) are run under many schedules from one forked state; verdict and the bytes/existence of every workspace file must equal the serial run, and the cache must stay content-addressed with nothing lost on every run.",
          "Only the observables the property names are compared (not permissions, mtimes, which rule won a restore, or execution counts).",
          "property-based testing: differential across schedules of the same scenario (serial baseline vs enumerated/generated schedules)", "2 C06"),
+ "C11": ("fault_enumeration",
+         "For every generated scenario the final build/clean is first run uncrashed to learn its complete sequence of file-system mutations (inside ruler and inside commands); it is then re-run from the same forked state and killed before every single mutation, and inside every write after 1, n/2 and n-1 bytes (every byte for small writes in the thorough tier). At the frozen state the cache must be content-addressed and nothing lost; a fresh build must then succeed and equal the from-scratch result, and a second build must run nothing.",
+         "Crash model: completed operations are durable and ordered, rename is atomic, no write-back reordering. Serial schedule (plus sampled random schedules in the thorough tier). Scenarios contain no failing rule.",
+         "fault injection enumerated over every mutation prefix of generated scenarios (property-based scenario generation + exhaustive crash points), recovery oracle = C01", "2 C11"),
 }
 
 NOT_YET = {}
